@@ -2,7 +2,7 @@
    of gather_features / get_option_value (Options.v), for every table of built-in features. *)
 From Coq Require Import List Bool NArith.
 Import ListNotations.
-From DV Require Import Options OptionsFacts GenFeatures.
+From DV Require Import Options OptionsFacts OptionsTerm GenFeatures.
 
 (* the structure read from the current tree: features are examined in sorted order (the
    repaired defect F11 was a hash-map order here), side-by-side enables line-numbers *)
@@ -55,3 +55,13 @@ Proof. exact no_gitconfig_ignores. Qed.
 Theorem C13_deterministic : forall builtins order fuel c gc d,
   resolve builtins order fuel c gc d = resolve builtins order fuel c gc d.
 Proof. reflexivity. Qed.
+
+(* gathering terminates: the recursion over feature lists (which may mention each other, or
+   themselves) is bounded by the number of distinct names — any two fuels above it give the
+   same result, so the model's fuel never decides an answer *)
+Theorem C13_gathering_terminates : forall builtins order U c gc n m,
+  (forall f b, assoc f builtins = Some b -> In f U) -> NoDup U ->
+  (forall f s, assoc f (custom gc) = Some s -> In f U) ->
+  S (length U) < n -> S (length U) < m ->
+  gather builtins order n c gc = gather builtins order m c gc.
+Proof. exact gather_enough_fuel. Qed.
